@@ -1102,3 +1102,55 @@ pub fn lzma2_parse_lzma_status_flags() {
     vcover!(class == 0, "class0");
     forget(dec);
 }
+
+/// Input that ends at a chunk boundary (NCH uncompressed chunks of K bytes, no end control
+/// byte), read through EofCutReader: no path may report success. Paths on which the source's
+/// read_exact runs dry end at the witness (the real code propagates that error with `?`).
+fn missing_end_cut<const NCH: usize, const K: usize>() {
+    let mut t = Tape::<32>::new();
+    let body: [u8; 16] = t.bytes::<16>();
+    let mut f = [0u8; 32];
+    let mut n = 0usize;
+    let mut c = 0;
+    while c < NCH {
+        f[n] = 1;
+        f[n + 1] = ((K - 1) >> 8) as u8;
+        f[n + 2] = (K - 1) as u8;
+        n += 3;
+        let mut i = 0;
+        while i < K {
+            f[n] = body[c * K + i];
+            n += 1;
+            i += 1;
+        }
+        c += 1;
+    }
+    let mut dec = mk_decoder([script(1, K_LIT); 4]);
+    let mut rd = EofCutReader::<32>::new(f, n);
+    let mut sink = RecSink::<16>::new();
+    let r = dec.decompress(&mut rd, &mut sink);
+    let ok = r.is_ok();
+    forget(r);
+    vassert!(!ok, "lzma2: input ending at a chunk boundary, before the end control byte, is never accepted");
+    forget(dec);
+}
+
+//@ harness props=C17,C02,C13 tier=quick unwind=6 unwindset=decompress:4,missing_end_cut:12,EofCutReader.*read:8 mem_gb=6 timeout=600 native=no
+//@ bound: LZMA2: empty input (end of input where the first control byte is expected); source EOF in read_exact is a witness that ends the path
+#[cfg_attr(kani, kani::proof)]
+#[cfg_attr(kani, kani::stub(std::fmt::format, crate::verif_common::stub_format))]
+#[cfg_attr(kani, kani::stub(std::io::Error::is_interrupted, crate::verif_common::stub_not_interrupted))]
+#[cfg_attr(kani, kani::stub(crate::decode::lzbuffer::LzAccumBuffer::from_stream, crate::decode::lzbuffer::verif_h::accum_from_stream_with_capacity))]
+pub fn lzma2_missing_end_cut_empty() {
+    missing_end_cut::<0, 1>()
+}
+
+//@ harness props=C17,C02,C13 tier=quick unwind=6 unwindset=decompress:4,missing_end_cut:12,EofCutReader.*read:8 mem_gb=6 timeout=600 native=no
+//@ bound: LZMA2: one uncompressed chunk of 3 symbolic bytes, then end of input where the next control byte is expected; source EOF in read_exact is a witness that ends the path
+#[cfg_attr(kani, kani::proof)]
+#[cfg_attr(kani, kani::stub(std::fmt::format, crate::verif_common::stub_format))]
+#[cfg_attr(kani, kani::stub(std::io::Error::is_interrupted, crate::verif_common::stub_not_interrupted))]
+#[cfg_attr(kani, kani::stub(crate::decode::lzbuffer::LzAccumBuffer::from_stream, crate::decode::lzbuffer::verif_h::accum_from_stream_with_capacity))]
+pub fn lzma2_missing_end_cut_1x3() {
+    missing_end_cut::<1, 3>()
+}
